@@ -107,12 +107,16 @@ def _mk_sampler(env, kind, S, dims, n):
 SINGLE = ("PINN", "Mean", "DeepRitz", "Adaptive", "Custom", "HPMSampler")
 
 
-def single_case(cond, S, M, outs, kind, has_p=True, has_f=True, has_c=False, xdim=1, n=2, calls=1, free=False):
+def single_case(cond, S, M, outs, kind, has_p=True, has_f=True, has_c=False, xdim=1, n=2, calls=1, free=False, declared=None):
     """free=True: the residual returns fresh symbols R (an ARBITRARY residual value per row and component) after recording
     what it received; the loss must then be the documented reduction of R"""
     name = "single/%s/S=%s/M=%s/out=%s/%s/x%d/n%d%s%s%s%s%s" % (
         cond, "".join(S), "".join(M), "".join(outs), kind, xdim, n, "/p" if has_p else "", "/f" if has_f else "",
         "/c" if has_c else "", "/calls%d" % calls if calls > 1 else "", "/freeres" if free else "")
+    # declared: {name: default} -- trailing residual parameters with declared defaults that nobody supplies
+    declared = dict(declared or {})
+    if declared:
+        name += "/declared_defaults=" + ",".join(declared)
     dims = DIMS2 if xdim == 2 else DIMS1
     use_model = cond != "HPMSampler"
     outs_eff = tuple(outs) if use_model else ()
@@ -130,7 +134,10 @@ def single_case(cond, S, M, outs, kind, has_p=True, has_f=True, has_c=False, xdi
         ncomp = len(outs_eff) if use_model else 1
         R_t = [env.tensor("R%d" % ci, (n, ncomp)) for ci in range(calls)] if free else None
 
+        got_declared = []
+
         def impl(**kw):
+            got_declared.append({k: kw.pop(k) for k in declared})
             e = dict(kw)
             r0 = None
             if "u" in kw:
@@ -154,7 +161,7 @@ def single_case(cond, S, M, outs, kind, has_p=True, has_f=True, has_c=False, xdi
             rec.append(e)
             return res
 
-        residual = K.make_fn(sig, impl, "residual")
+        residual = K.make_fn(sig + list(declared), impl, "residual", defaults=declared)
         dfs = {}
         if has_f:
             dfs["f"] = f.fn
@@ -244,7 +251,7 @@ def single_case(cond, S, M, outs, kind, has_p=True, has_f=True, has_c=False, xdi
         got_args = rec
         return dict(losses=[l.reshape(1) for l in losses], loss_numel=[l.numel() for l in losses], got=got_args, want=want_args,
                     want_loss=want_loss, n_res_calls=len(rec), produced=len(recorder.produced),
-                    weight_kept=cnd.weight is wgt, static=static)
+                    weight_kept=cnd.weight is wgt, static=static, got_declared=got_declared)
 
     def goals(o, L, env):
         yield "residual_called_once_per_forward", o["n_res_calls"] == calls
@@ -253,6 +260,9 @@ def single_case(cond, S, M, outs, kind, has_p=True, has_f=True, has_c=False, xdi
             yield "static_sampler_sampled_once", o["produced"] == 1
         if o["n_res_calls"] != calls:
             return
+        for ci, gd in enumerate(o["got_declared"]):
+            for k, v in declared.items():
+                yield "absent_optional_argument_gets_its_declared_default[%s,call%d]" % (k, ci), type(gd[k]) is type(v) and gd[k] == v
         for ci in range(calls):
             g, w = o["got"][ci], o["want"][ci]
             yield "receives_exactly_its_signature[call%d]" % ci, sorted(g) == sorted(w)
@@ -1012,6 +1022,8 @@ def cases(tier):
     for kind in ("fixed_static", "data", "data_static", "random", "random_static"):
         cs.append(single_case("PINN", TX, XT, U, kind, calls=2))
     cs.append(single_case("PINN", XT, TX, U, "fixed", has_c=True, has_p=False))
+    cs.append(single_case("PINN", XT, TX, U, "fixed", declared={"k1": 2.0, "k2": 0.5}))
+    cs.append(single_case("Mean", TX, XT, U, "fixed", has_p=False, declared={"k1": 2.0, "k2": 0.5, "k3": -1.0}))
     cs.append(single_case("PINN", XT, TX, U, "fixed", has_f=False, has_p=False))
     cs.append(single_case("Mean", TX, XT, U, "random", calls=2))
     cs.append(gridfill_case(3))
